@@ -23,6 +23,10 @@ type treeNode struct {
 	Subs   []int     `json:"subs"`
 	Action bool      `json:"action"`
 	Bare   bool      `json:"bare"` // declares nothing (such a command can be initialised more than once)
+	Hidden bool      `json:"hidden"`
+	Policy string    `json:"policy"` // "" = inherited; continue | exit | panic = set in the command's initialiser
+	IntMulti bool    `json:"intmulti"` // the Int option is declared multi-valued (IntsOpt)
+	Late   bool      `json:"late"`   // (children of the application only) declared after the earlier runs, before the observed one
 }
 
 type treeCase struct {
@@ -136,6 +140,17 @@ func runTree(c treeCase) (r treeResult) {
 		path := n.Path
 		cmd.Spec = n.Spec
 		cmd.LongDesc = "LONG:" + path
+		if n.Hidden {
+			cmd.Hidden = true
+		}
+		switch n.Policy {
+		case "continue":
+			cmd.ErrorHandling = flag.ContinueOnError
+		case "exit":
+			cmd.ErrorHandling = flag.ExitOnError
+		case "panic":
+			cmd.ErrorHandling = flag.PanicOnError
+		}
 		logs[path] = map[string]*[]string{}
 		for _, o := range n.Opts {
 			if n.Bare {
@@ -148,7 +163,9 @@ func runTree(c treeCase) (r treeResult) {
 			logs[path]["O:"+optKey(o.Names)] = l
 			cmd.Var(cli.VarOpt{Name: o.Names, Value: &rec{flag: o.Flag, log: l}})
 		}
-		if n.IntOpt != "" && !n.Bare {
+		if n.IntOpt != "" && !n.Bare && n.IntMulti {
+			cmd.Ints(cli.IntsOpt{Name: n.IntOpt})
+		} else if n.IntOpt != "" && !n.Bare {
 			ints[path] = cmd.Int(cli.IntOpt{Name: n.IntOpt, Value: -1})
 		}
 		for _, a := range n.Args {
@@ -166,6 +183,9 @@ func runTree(c treeCase) (r treeResult) {
 		}
 		for _, si := range n.Subs {
 			si := si
+			if idx == 0 && c.Nodes[si].Late {
+				continue
+			}
 			cmd.Command(strings.Join(c.Nodes[si].Names, " "), "SHORT:"+c.Nodes[si].Path, func(sc *cli.Cmd) { build(sc, si) })
 		}
 	}
@@ -177,6 +197,12 @@ func runTree(c treeCase) (r treeResult) {
 		}()
 		r.Log, r.Exits = []string{}, []int{}
 		errBuf.Reset()
+	}
+	for _, si := range c.Nodes[0].Subs {
+		si := si
+		if c.Nodes[si].Late {
+			app.Command(strings.Join(c.Nodes[si].Names, " "), "SHORT:"+c.Nodes[si].Path, func(sc *cli.Cmd) { build(sc, si) })
+		}
 	}
 	err := app.Run(append([]string{c.Nodes[0].Names[0]}, c.Argv...))
 	if err != nil {
